@@ -64,8 +64,12 @@ def match_scope(my_scope: str, other_scope: str, match_by: MatchBy | str | None)
     match_scope correctly handles "%2F" (== '/') encoded values.
     """
     if match_by in (MatchBy.ldap, MatchBy.uri, MatchBy.uuid, '', None):
-        my_scope = urlsplit(my_scope)
-        other_scope = urlsplit(other_scope)
+        try:
+            my_scope = urlsplit(my_scope)
+            other_scope = urlsplit(other_scope)
+        except ValueError:
+            # not a well-formed URI (e.g. malformed authority): it matches nothing
+            return False
         if (
             my_scope.scheme.lower() != other_scope.scheme.lower()
             or my_scope.netloc.lower() != other_scope.netloc.lower()
@@ -75,8 +79,9 @@ def match_scope(my_scope: str, other_scope: str, match_by: MatchBy | str | None)
             return True
         src_path_elements = my_scope.path.split('/')
         target_path_elements = other_scope.path.split('/')
-        src_path_elements = [unquote(elem) for elem in src_path_elements]
-        target_path_elements = [unquote(elem) for elem in target_path_elements]
+        # surrogateescape keeps octets that are not valid UTF-8 distinct (errors='replace' maps all of them to U+FFFD)
+        src_path_elements = [unquote(elem, errors='surrogateescape') for elem in src_path_elements]
+        target_path_elements = [unquote(elem, errors='surrogateescape') for elem in target_path_elements]
         if len(src_path_elements) > len(target_path_elements):
             return False
         return all(target_path_elements[i] == elem for i, elem in enumerate(src_path_elements))
